@@ -41,14 +41,20 @@ TReset ==
 
 CfgOf(ev) == [ty |-> ev.ty, r |-> ev.r, c |-> ev.c, sn |-> ev.sn,
               st |-> ev.st, grid |-> ev.grid, kind |-> ev.kind,
-              vec |-> ev.vec, ud |-> ev.ud]
+              vec |-> ev.vec, ud |-> ev.ud, sh |-> ev.sh]
 
 TCfg ==
     /\ Ev.e = "Cfg"
     /\ Explain(ts.ph = "idle", <<l, "Cfg", "phase", "idle">>)
     /\ Explain("bad" \notin DOMAIN Ev, <<l, "Cfg", "row", "readable">>)
     /\ Explain(IsConfig(CfgOf(Ev)), <<l, "Cfg", "config", "IsConfig">>)
-    /\ Explain(Ev.nf \in 1..3 /\ Ev.pts >= 1, <<l, "Cfg", "free", "nf, pts">>)
+    /\ Explain(Ev.nf \in 1..5 /\ Ev.pts >= 1, <<l, "Cfg", "free", "nf, pts">>)
+    (* a shape needs a band; "same": as many points as calibration          *)
+    (* frequencies, three or more                                           *)
+    /\ Explain(Ev.sh # "const" => Ev.nf >= 2, <<l, "Cfg", "nf", ">= 2">>)
+    /\ Explain(Ev.grid = "same" => (Ev.nf >= 3 /\ Ev.pts = Ev.nf),
+               <<l, "Cfg", "pts", "= nf >= 3">>)
+    /\ Explain(Ev.grid = "cal" => Ev.pts = Ev.nf, <<l, "Cfg", "pts", "nf">>)
     /\ Explain(Ev.grid = "one" => Ev.pts = 1, <<l, "Cfg", "pts", 1>>)
     /\ Explain(Ev.grid = "two" => Ev.pts = 2, <<l, "Cfg", "pts", 2>>)
     /\ Explain(Ev.grid = "n" => Ev.pts >= 4, <<l, "Cfg", "pts", ">= 4">>)
@@ -73,6 +79,10 @@ TScn ==
               /\ Explain(o.clrmset = 0 /\ o.clr = 0, <<l, "Scn", "clr", 0>>)
               /\ Explain(o.bit = 1, <<l, "Scn", "bitIdentical", 1>>)
               /\ Explain(ExactOK(o), <<l, "Scn", "ExactOK", TRUE>>)
+         [] k = "agree" ->
+              /\ Explain(o.wret = 0 /\ o.wcbn = 0 /\ o.clrmset = 0 /\ o.clr = 0,
+                         <<l, "Scn", "agreeSolves", 0>>)
+              /\ Explain(AgreeOK(o), <<l, "Scn", "sameWhereDeclarationsAgree", 1>>)
          [] k = "iacc" ->
               Explain(AcceptedOK(o) /\ o.wcbn = 0, <<l, "Scn", "interpAccept", 0>>)
          [] k = "rdacc" ->
